@@ -163,7 +163,7 @@ theorem step_conserved (ps : Pipes) (h : Hist) (op : PipeOp) (hd : Distinct ps) 
         have hr : ∀ p ∈ ps, p.1 ≠ r := by
           intro p hp e
           have : ps.isEnd r = true := List.any_eq_true.mpr ⟨p, hp, by simp [e]⟩
-          rw [hne.1] at this; cases this
+          rw [hne.1.1] at this; cases this
         refine ⟨?_, ?_, ?_⟩
         · unfold Distinct
           simp only [List.map_append, List.map_cons, List.map_nil]
